@@ -85,9 +85,27 @@ func Drive(run *Run, rng *rand.Rand, nops int, clean bool, views bool) *Divergen
 				st = Step{Op: mfs.Op{Kind: mfs.OpIsExist, P1: "a"}}
 			}
 		}
+		// faulty remote: now and then the remote refuses to open the source of a file copy. The
+		// copy then fails before anything was transferred; like every unsuccessful operation it
+		// must leave the view as it was (checked by Do's tree comparison)
+		if run.Faults != nil && !st.Commit && rng.Intn(3) == 0 && (st.Op.Kind == mfs.OpCopy || st.Op.Kind == mfs.OpCopyFile) {
+			if sp, ok := run.Model.Resolve(st.Op.View, st.Op.P1); ok {
+				if n := run.Model.Get(sp); n != nil && !n.Dir {
+					run.Faults.Fired = ""
+					run.Faults.Match = "Reader-open"
+					run.Faults.Arm(run.Faults.Count() + 1)
+				}
+			}
+		}
 		d, stop := run.Do(st)
 		if run.Faults != nil {
 			run.Faults.Arm(0)
+			if run.Faults.Match != "" {
+				run.Faults.Match = ""
+				if run.Faults.FiredPoint() != "" {
+					run.SourceOpenFaults++
+				}
+			}
 		}
 		if d != nil || stop {
 			return d
